@@ -101,6 +101,72 @@ def run_one(path):
     return name, 'ok' if okall else 'FAIL', '; '.join(res)
 
 
+def audit_for(prop, repo='/repo', limit=None):
+    """Self-audit used by the thorough tier: every catalogue mutant that names `prop` and every kept seed of `prop`
+    must be detected on a scratch copy of the current tree, every refactor must stay silent.
+    Entries whose edit anchor no longer matches the current tree are skipped (not failed)."""
+    import subprocess
+    out = {'mutants_detected': 0, 'mutants_missed': [], 'refactors_silent': 0, 'refactor_alarms': [], 'seeds_detected': 0, 'seeds_missed': [],
+           'skipped': [], 'entries': []}
+    files = sorted(glob.glob(os.path.join(VERIF, 'mutants', '*.json')))
+    base = {v['key'] for v in violations_for(prop, Facts(extract.extract('default', repo=repo)))}
+    for path in files:
+        m = json.load(open(path))
+        name = os.path.basename(path)[:-5]
+        is_ref = m.get('kind') == 'refactor'
+        if not is_ref and not any(e[0] == prop for e in m.get('expect', [])):
+            continue
+        d = scratch_copy(repo)
+        try:
+            try:
+                apply_edit(d, m)
+            except RuntimeError:
+                out['skipped'].append(name)
+                continue
+            try:
+                F = Facts(extract.extract('default', repo=d, manifest_dir=d))
+            except extract.ExtractError:
+                out['skipped'].append(name)
+                continue
+        finally:
+            shutil.rmtree(d, ignore_errors=True)
+        vs = [v for v in violations_for(prop, F) if v['key'] not in base]
+        if is_ref:
+            if vs:
+                out['refactor_alarms'].append(name)
+            else:
+                out['refactors_silent'] += 1
+        else:
+            want = {e[1] for e in m.get('expect', []) if e[0] == prop}
+            if {v['rule'] for v in vs} & want or (not want and vs):
+                out['mutants_detected'] += 1
+            else:
+                out['mutants_missed'].append(name)
+        out['entries'].append(name)
+    for sd in sorted(glob.glob(os.path.join(VERIF, 'seeded', prop + '-*'))):
+        name = os.path.basename(sd)
+        d = scratch_copy(repo)
+        try:
+            r = subprocess.run(['patch', '-p1', '-s', '-f', '-i', os.path.join(sd, 'patch.diff')], cwd=d, capture_output=True, text=True)
+            if r.returncode != 0:
+                out['skipped'].append(name)
+                continue
+            try:
+                F = Facts(extract.extract('default', repo=d, manifest_dir=d))
+            except extract.ExtractError:
+                out['skipped'].append(name)
+                continue
+        finally:
+            shutil.rmtree(d, ignore_errors=True)
+        vs = [v for v in violations_for(prop, F) if v['key'] not in base]
+        if vs:
+            out['seeds_detected'] += 1
+        else:
+            out['seeds_missed'].append(name)
+        out['entries'].append(name)
+    return out
+
+
 def main():
     args = sys.argv[1:]
     jobs = 4
